@@ -4,6 +4,8 @@
 (* code units.  Receivers and arguments are the values of Ops.tla            *)
 (* (primitives, scripted conversion objects "cobj") plus                     *)
 (*   [t |-> "strobj", s |-> units]     a String object (new String(s)).      *)
+(*   [t |-> "strobjx", s, id, ts]      a String object with an OWN scripted  *)
+(*                                     toString (behaviour ts as in Ops.tla) *)
 (* Results are Ops outcomes [thr, v, log]; an array result is                *)
 (*   [t |-> "arr", a |-> <<values>>].                                        *)
 (*                                                                           *)
@@ -74,10 +76,15 @@ Recv(this, style) ==
     IF D("D09_call_undefined_this_global") /\ style = "call" /\ this.t = "undef"
     THEN [t |-> "global"]                               \* Function.prototype.call substitutes the global object
     ELSE this
-IsStringObjectThis(this, style) == this.t = "strobj" \/ (this.t = "str" /\ style = "member")
+IsStringObjectThis(this, style) == this.t \in {"strobj", "strobjx"} \/ (this.t = "str" /\ style = "member")
 
 ToStringThis(this, log) ==                              \* 9.8 (also used for arguments: they may be String objects)
     CASE this.t = "strobj" -> R(StrV(this.s), log)      \* 8.12.8 -> 15.5.4.2 (String.prototype unmodified)
+      [] this.t = "strobjx" ->                            \* 8.12.8 hint String: the own toString first, then the
+                                                          \* inherited valueOf (15.5.4.3: the [[PrimitiveValue]])
+            LET a == TryConv([id |-> this.id, vo |-> [k |-> "inherit"], ts |-> this.ts], "ts", log)
+            IN  IF ~a.done THEN R(StrV(this.s), a.r.log)
+                ELSE IF a.r.thr # "" THEN a.r ELSE R(StrV(ToStringPrim(a.r.v)), a.r.log)
       [] this.t = "global" -> R(StrV(S9_objEnvironment), log)
       [] OTHER -> ToStringV(this, log)
 ThisStr(this, log) ==
